@@ -67,6 +67,10 @@ pub struct SrvCase {
     /// crash + restart of the server process enabled (at most two per world)
     #[serde(default)]
     pub restarts: bool,
+    /// scheduling bias: this client's handlers, once past their first database call, are rarely
+    /// chosen, so that the others get whole requests done inside its windows between two calls
+    #[serde(default)]
+    pub stall: Option<usize>,
 }
 
 pub struct Service {
@@ -140,6 +144,7 @@ impl Service {
         // "twin problems" worlds (one in six): every client files the same marker-free code under
         // the same problem name early on and keeps working on it, so that documents of different
         // owners agree in everything but the owner
+        let churn = contended && rng.chance(1, 4);
         let twin = rng.chance(1, 6);
         let twin_code = common_code(rng);
         let twin_p: String = pnames[rng.below(2) as usize].into();
@@ -242,6 +247,31 @@ impl Service {
                 };
                 script.push(r);
             }
+            if contended && churn {
+                // account churn: register / log in / file a problem / look / delete the account,
+                // over and over on the two shared names
+                script.clear();
+                let cycles = rng.range(2, 3);
+                for _ in 0..cycles {
+                    let n = acct(rng);
+                    let p = pw(rng);
+                    script.push(Rq::Register { name: n.clone(), pw: p.clone() });
+                    script.push(Rq::Login { name: n, pw: p });
+                    if rng.chance(3, 4) {
+                        script.push(Rq::Add { pname: pnames[rng.below(2) as usize].into(), code: gen_code(rng, c, 3, true), parsing: "Naive".into() });
+                    }
+                    match rng.below(4) {
+                        0 => script.push(Rq::List),
+                        1 => script.push(Rq::Get { pname: pnames[rng.below(2) as usize].into() }),
+                        2 => script.push(Rq::Update { name: acct(rng), pw: pw(rng) }),
+                        _ => {}
+                    }
+                    if rng.chance(4, 5) {
+                        script.push(Rq::DeleteAccount);
+                    }
+                }
+                script.push(Rq::List);
+            }
             if rng.chance(1, 10) {
                 // a client that hammers somebody else's account with wrong passwords
                 let target = if contended { ["ua", "ub"][rng.below(2) as usize].to_string() } else { format!("c{}a", (c + 1) % nclients) };
@@ -263,7 +293,8 @@ impl Service {
             }
             clients.push(script);
         }
-        SrvCase { clients, faults, jumps, small_names, restarts: rng.chance(1, 5) }
+        let stall = if rng.chance(1, 3) { Some(rng.below(nclients as u64) as usize) } else { None };
+        SrvCase { clients, faults, jumps, small_names, restarts: rng.chance(1, 5), stall }
     }
 
     /// More than ten statements (string-encoded positions "10", "11" sort before "2"): only
@@ -333,7 +364,8 @@ impl Service {
             }
             clients.push(script);
         }
-        SrvCase { clients, faults, jumps, small_names: false, restarts: rng.chance(1, 5) }
+        let stall = if rng.chance(1, 4) { Some(rng.below(nclients as u64) as usize) } else { None };
+        SrvCase { clients, faults, jumps, small_names: false, restarts: rng.chance(1, 5), stall }
     }
 }
 
@@ -1093,6 +1125,7 @@ async fn run_world(svc_cfg: &Service, case: &SrvCase, dec: Decisions, seed_for_k
     let mut restarts_done = 0u32;
     let trace = std::env::var("SRVSIM_TRACE").is_ok();
     let mut last_gate_client: Option<usize> = None;
+    let mut calls_done: BTreeMap<String, u32> = BTreeMap::new();
     loop {
         if run.violation.is_some() || run.w.harness_error.is_some() || run.w.hung_task.is_some() {
             break;
@@ -1106,7 +1139,19 @@ async fn run_world(svc_cfg: &Service, case: &SrvCase, dec: Decisions, seed_for_k
         let gates = run.w.pending_gates();
         let mut acts: Vec<(Act, u64)> = Vec::new();
         for g in &gates {
-            acts.push((Act::Gate(g.id), 4));
+            let owner = match &g.tag {
+                Some(t) => tag_client(t),
+                None => run.w.cont_gate.get(&g.id).and_then(|tid| run.w.tasks.get(tid)).map(|t| t.client),
+            };
+            let mid_request = match &g.tag {
+                Some(t) => calls_done.get(t).copied().unwrap_or(0) >= 1,
+                None => true,
+            };
+            let stalled = case.stall.is_some() && owner == case.stall && mid_request;
+            if stalled {
+                run.stats.inc("stalled_call_offered");
+            }
+            acts.push((Act::Gate(g.id), if stalled { 1 } else { 4 }));
         }
         for c in 0..n {
             if !run.cl[c].busy && run.cl[c].pos < case.clients[c].len() {
@@ -1182,6 +1227,7 @@ async fn run_world(svc_cfg: &Service, case: &SrvCase, dec: Decisions, seed_for_k
                     run.actions.push(crate::solo::ActRec { client: gc.unwrap_or(usize::MAX - 1), kind: crate::solo::ActKind::Gate { bg_task_ord: bg, outcome } });
                 }
                 run.log.str("gate").u64(id).u64(outcome as u64);
+                *calls_done.entry(actor.clone()).or_default() += 1;
                 run.w.release_gate(id, outcome, &actor).await;
             }
             Act::Issue(c) => {
@@ -1504,6 +1550,11 @@ impl Service {
         if c.restarts {
             let mut d = c.clone();
             d.restarts = false;
+            out.push(d);
+        }
+        if c.stall.is_some() {
+            let mut d = c.clone();
+            d.stall = None;
             out.push(d);
         }
         for (flag, _) in [("faults", 0), ("jumps", 1), ("small", 2)] {
